@@ -625,6 +625,134 @@ Section RT.
             intros K HK. cbn [fold_left]. apply HK5. unfold place. cbn [fst snd]. rewrite Hrep.
             apply upd_nth_erase; [exact HK|]. intros l1 l2 Hl. cbn [map]. rewrite Ev. reflexivity.
     Qed.
+    (* the same loop in continuation form: after the tokens of the entries [es] the loop goes on with what follows *)
+    Lemma loop_cont after : forall es kids cms ts s n rest, Inv s -> ps_ftab s = ftab -> (length es <= n)%nat ->
+      entries_fine es after ->
+      map shape_of ts = flat_map (fun e : entry => kid_toks (snd (fst e)) (w (snd e))) es -> ps_after s = ts ++ rest ->
+      hd_shape rest = after ->
+      exists kids' s', tagged_loop S rec ifuel n true last titems c kids cms s =
+                       tagged_loop S rec ifuel (n - length es) true last titems c kids' cms s' /\ adv ts s s' /\
+        forall K, map (map erase) kids = map (map erase) K -> map (map erase) kids' = map (map erase) (fold_left (place rx) es K).
+    Proof.
+      induction es as [|e es IH]; intros kids cms ts s n rest I Hf Hn Hes Hm Ha Htail.
+      - cbn [flat_map] in Hm. apply map_eq_nil in Hm. subst ts. exists kids, s. cbn [length]. rewrite Nat.sub_0_r.
+        split; [reflexivity|]. split; [apply adv_refl, (inv_pos s I)|]. intros K HK. exact HK.
+      - cbn [entries_fine] in Hes. destruct Hes as [He Hes].
+        destruct e as [[idx ti] k]. unfold entry_fine in He. cbn [fst snd] in He.
+        destruct He as (td & Hfind & Hlk & Hsp & Hkid).
+        cbn [flat_map fst snd] in Hm. apply map_eq_app in Hm. destruct Hm as (t1 & t2 & -> & Hm1 & Hm2).
+        rewrite <- app_assoc in Ha.
+        set (nxt := match es with e2 :: _ => Some (kid_head (snd (fst e2))) | [] => after end) in *.
+        assert (Hnxt : hd_shape (t2 ++ rest) = nxt).
+        { subst nxt. destruct es as [|e2 es']; [cbn [flat_map] in Hm2; apply map_eq_nil in Hm2; subst t2; exact Htail|].
+          cbn [flat_map] in Hm2. apply map_eq_app in Hm2. destruct Hm2 as (u1 & u2 & -> & Hu1 & _).
+          rewrite <- app_assoc. apply (hd_shape_kid_toks _ _ _ _ Hu1). }
+        destruct n as [|n]; [cbn [length] in Hn; lia|]. cbn [length] in Hn. cbn [tagged_loop].
+        unfold kid_toks in Hm1. destruct (ti_block ti) eqn:Hb.
+        + (* /begin TAG ... /end TAG *)
+          destruct t1 as [|tB [|tI tk]]; try discriminate. cbn [map] in Hm1.
+          assert (HB0 : shape_of tB = (TBegin, begin_text)) by congruence.
+          assert (HI0 : shape_of tI = (TIdentifier, bytes_of (ti_tag ti))) by congruence.
+          assert (Hk : map shape_of tk = w k ++ [(TEnd, end_text); (TIdentifier, bytes_of (ti_tag ti))]) by congruence.
+          unfold shape_of in HB0, HI0. apply pair_equal_spec in HB0. destruct HB0 as [HB _].
+          apply pair_equal_spec in HI0. destruct HI0 as [HI HItx].
+          cbn [app] in Ha.
+          destruct (next_tag_block s tB tI (tk ++ t2 ++ rest) I Ha HB HI) as (off & s1 & E1 & A1).
+          rewrite (bind_ok _ _ _ _ _ E1). rewrite HItx, Hfind. rewrite Hb. cbn [require_block].
+          assert (I1 : Inv s1) by (eapply adv_inv; eassumption).
+          assert (So1 : soft (match ti_vmin ti with Some v => check_block_version_lower c (bytes_of (ti_tag ti)) v | None => ret tt end)).
+          { destruct (ti_vmin ti); [apply soft_block_lower | apply soft_ret]. }
+          assert (So2 : soft (match ti_vmax ti with Some v => check_block_version_upper c (bytes_of (ti_tag ti)) v | None => ret tt end)).
+          { destruct (ti_vmax ti); [apply soft_block_upper | apply soft_ret]. }
+          unfold bindM at 1. cbn [ret].
+          destruct (So1 s1 I1) as (s2 & E2 & A2). assert (I2 : Inv s2) by (eapply adv_inv; eassumption).
+          destruct (So2 s2 I2) as (s3 & E3 & A3). assert (I3 : Inv s3) by (eapply adv_inv; eassumption).
+          rewrite (bind_ok _ _ _ _ _ E2), (bind_ok _ _ _ _ _ E3). rewrite Hlk.
+          unfold parse_special_or_generic. rewrite Hsp.
+          pose proof (adv_trans _ _ _ _ _ A1 (adv_trans _ _ _ _ _ A2 A3)) as A13. cbn [app] in A13.
+          assert (Ha3 : ps_after s3 = (tk ++ t2) ++ rest).
+          { pose proof (adv_after _ _ _ A13) as Q. rewrite Ha in Q. cbn [app] in Q. injection Q as Q. rewrite <- app_assoc. symmetry. exact Q. }
+          assert (Hf3 : ps_ftab s3 = ftab) by (rewrite (se_ftab _ _ (adv_static _ _ _ A13)); exact Hf).
+          assert (HtI : tok_ok tI).
+          { pose proof (inv_toks s I) as F. unfold tokens_of in F. rewrite Ha in F. apply Forall_app in F. destruct F as [_ F].
+            inversion F as [|? ? _ F2]; subst. inversion F2; assumption. }
+          destruct HtI as (FtI & _).
+          rewrite <- app_assoc in Ha3.
+          destruct (Hkid (ctx_from_token (bytes_of (ti_tag ti)) tI) off s3 tk (t2 ++ rest) FtI eq_refl I3 Hf3 Ha3
+                         ltac:(unfold closing; exact Hk) ltac:(discriminate)) as (v' & s4 & E4 & A4 & Ev).
+          rewrite (bind_ok _ _ _ _ _ E4).
+          assert (I4 : Inv s4) by (eapply adv_inv; eassumption).
+          assert (Ha4 : ps_after s4 = t2 ++ rest).
+          { pose proof (adv_after _ _ _ A4) as Q. rewrite Ha3 in Q. apply app_inv_head in Q. symmetry. exact Q. }
+          assert (Hf4 : ps_ftab s4 = ftab) by (rewrite (se_ftab _ _ (adv_static _ _ _ A4)); exact Hf3).
+          destruct (ti_repeat ti) eqn:Hrep.
+          * destruct (IH (upd_nth kids idx (fun l => l ++ [v'])) cms t2 s4 n rest I4 Hf4 ltac:(lia) Hes Hm2 Ha4 Htail) as (kids' & s5 & E5 & A5 & HK5).
+            exists kids', s5. split; [exact E5|]. split.
+            { replace (tB :: tI :: tk ++ t2) with ([tB; tI] ++ tk ++ t2) by reflexivity.
+              apply (adv_trans _ _ _ _ _ A13). apply (adv_trans _ _ _ _ _ A4 A5). }
+            intros K HK. cbn [fold_left]. apply HK5. unfold place. cbn [fst snd]. rewrite Hrep.
+            apply upd_nth_erase; [exact HK|]. intros l1 l2 Hl. rewrite !map_app, Hl. cbn [map]. rewrite Ev. reflexivity.
+          * destruct (soft_multiplicity (bytes_of (ti_tag ti)) (match nth idx kids [] with [] => false | _ => true end) s4 I4) as (s4' & E4' & A4').
+            rewrite (bind_ok _ _ _ _ _ E4').
+            assert (I4' : Inv s4') by (eapply adv_inv; eassumption).
+            assert (Ha4' : ps_after s4' = t2 ++ rest) by (destruct (adv_nil_after _ _ A4') as [Q _]; rewrite Q; exact Ha4).
+            assert (Hf4' : ps_ftab s4' = ftab) by (rewrite (se_ftab _ _ (adv_static _ _ _ A4')); exact Hf4).
+            destruct (IH (upd_nth kids idx (fun _ => [v'])) cms t2 s4' n rest I4' Hf4' ltac:(lia) Hes Hm2 Ha4' Htail) as (kids' & s5 & E5 & A5 & HK5).
+            exists kids', s5. split; [exact E5|]. split.
+            { replace (tB :: tI :: tk ++ t2) with ([tB; tI] ++ tk ++ ([] ++ t2)) by reflexivity.
+              apply (adv_trans _ _ _ _ _ A13). apply (adv_trans _ _ _ _ _ A4). apply (adv_trans _ _ _ _ _ A4' A5). }
+            intros K HK. cbn [fold_left]. apply HK5. unfold place. cbn [fst snd]. rewrite Hrep.
+            apply upd_nth_erase; [exact HK|]. intros l1 l2 Hl. cbn [map]. rewrite Ev. reflexivity.
+        + (* TAG ... *)
+          destruct t1 as [|tI tk]; try discriminate. cbn [map] in Hm1.
+          assert (HI0 : shape_of tI = (TIdentifier, bytes_of (ti_tag ti))) by congruence.
+          assert (Hk : map shape_of tk = w k) by congruence.
+          unfold shape_of in HI0. apply pair_equal_spec in HI0. destruct HI0 as [HI HItx].
+          cbn [app] in Ha.
+          destruct (next_tag_keyword s tI (tk ++ t2 ++ rest) I Ha HI) as (off & s1 & E1 & A1).
+          rewrite (bind_ok _ _ _ _ _ E1). rewrite HItx, Hfind. rewrite Hb. cbn [require_keyword].
+          assert (I1 : Inv s1) by (eapply adv_inv; eassumption).
+          assert (So1 : soft (match ti_vmin ti with Some v => check_block_version_lower c (bytes_of (ti_tag ti)) v | None => ret tt end)).
+          { destruct (ti_vmin ti); [apply soft_block_lower | apply soft_ret]. }
+          assert (So2 : soft (match ti_vmax ti with Some v => check_block_version_upper c (bytes_of (ti_tag ti)) v | None => ret tt end)).
+          { destruct (ti_vmax ti); [apply soft_block_upper | apply soft_ret]. }
+          unfold bindM at 1. cbn [ret].
+          destruct (So1 s1 I1) as (s2 & E2 & A2). assert (I2 : Inv s2) by (eapply adv_inv; eassumption).
+          destruct (So2 s2 I2) as (s3 & E3 & A3). assert (I3 : Inv s3) by (eapply adv_inv; eassumption).
+          rewrite (bind_ok _ _ _ _ _ E2), (bind_ok _ _ _ _ _ E3). rewrite Hlk.
+          unfold parse_special_or_generic. rewrite Hsp.
+          pose proof (adv_trans _ _ _ _ _ A1 (adv_trans _ _ _ _ _ A2 A3)) as A13. cbn [app] in A13.
+          assert (Ha3 : ps_after s3 = tk ++ t2 ++ rest).
+          { pose proof (adv_after _ _ _ A13) as Q. rewrite Ha in Q. cbn [app] in Q. injection Q as Q. symmetry. exact Q. }
+          assert (Hf3 : ps_ftab s3 = ftab) by (rewrite (se_ftab _ _ (adv_static _ _ _ A13)); exact Hf).
+          assert (HtI : tok_ok tI) by (apply (tok_ok_after s tI _ I Ha)).
+          destruct HtI as (FtI & _).
+          destruct (Hkid (ctx_from_token (bytes_of (ti_tag ti)) tI) off s3 tk (t2 ++ rest) FtI eq_refl I3 Hf3 Ha3
+                         ltac:(unfold closing; rewrite app_nil_r; exact Hk) ltac:(intros _; exact Hnxt)) as (v' & s4 & E4 & A4 & Ev).
+          rewrite (bind_ok _ _ _ _ _ E4).
+          assert (I4 : Inv s4) by (eapply adv_inv; eassumption).
+          assert (Ha4 : ps_after s4 = t2 ++ rest).
+          { pose proof (adv_after _ _ _ A4) as Q. rewrite Ha3 in Q. apply app_inv_head in Q. symmetry. exact Q. }
+          assert (Hf4 : ps_ftab s4 = ftab) by (rewrite (se_ftab _ _ (adv_static _ _ _ A4)); exact Hf3).
+          destruct (ti_repeat ti) eqn:Hrep.
+          * destruct (IH (upd_nth kids idx (fun l => l ++ [v'])) cms t2 s4 n rest I4 Hf4 ltac:(lia) Hes Hm2 Ha4 Htail) as (kids' & s5 & E5 & A5 & HK5).
+            exists kids', s5. split; [exact E5|]. split.
+            { replace (tI :: tk ++ t2) with ([tI] ++ tk ++ t2) by reflexivity.
+              apply (adv_trans _ _ _ _ _ A13). apply (adv_trans _ _ _ _ _ A4 A5). }
+            intros K HK. cbn [fold_left]. apply HK5. unfold place. cbn [fst snd]. rewrite Hrep.
+            apply upd_nth_erase; [exact HK|]. intros l1 l2 Hl. rewrite !map_app, Hl. cbn [map]. rewrite Ev. reflexivity.
+          * destruct (soft_multiplicity (bytes_of (ti_tag ti)) (match nth idx kids [] with [] => false | _ => true end) s4 I4) as (s4' & E4' & A4').
+            rewrite (bind_ok _ _ _ _ _ E4').
+            assert (I4' : Inv s4') by (eapply adv_inv; eassumption).
+            assert (Ha4' : ps_after s4' = t2 ++ rest) by (destruct (adv_nil_after _ _ A4') as [Q _]; rewrite Q; exact Ha4).
+            assert (Hf4' : ps_ftab s4' = ftab) by (rewrite (se_ftab _ _ (adv_static _ _ _ A4')); exact Hf4).
+            destruct (IH (upd_nth kids idx (fun _ => [v'])) cms t2 s4' n rest I4' Hf4' ltac:(lia) Hes Hm2 Ha4' Htail) as (kids' & s5 & E5 & A5 & HK5).
+            exists kids', s5. split; [exact E5|]. split.
+            { replace (tI :: tk ++ t2) with ([tI] ++ tk ++ ([] ++ t2)) by reflexivity.
+              apply (adv_trans _ _ _ _ _ A13). apply (adv_trans _ _ _ _ _ A4). apply (adv_trans _ _ _ _ _ A4' A5). }
+            intros K HK. cbn [fold_left]. apply HK5. unfold place. cbn [fst snd]. rewrite Hrep.
+            apply upd_nth_erase; [exact HK|]. intros l1 l2 Hl. cbn [map]. rewrite Ev. reflexivity.
+    Qed.
   End Loop.
 
   (* ---------- one field ---------- *)
